@@ -746,4 +746,87 @@ def r2_7(ctx: Ctx) -> RuleResult:
     return rr
 
 
-RULES = [r2_1, r2_2, r2_3, r2_4, r2_5, r2_6, r2_7]
+def r2_8(ctx: Ctx) -> RuleResult:
+    """A query argument that selects nothing is the special result Nothing (RFC 9535 2.4.1): for a function with
+    declared parameter types, an *empty* node list given to a parameter that is not NodesType must become UNDEFINED -
+    not an empty list, not the node list itself.  Partial evaluation of `_unpack_node_lists` under exactly those
+    assumptions; every argument value it can produce must be UNDEFINED."""
+    from sa.consteval import EnumMember
+    from sa.consteval import NotConst
+    from sa.peval import Explorer
+
+    rr = RuleResult("R2.8", "an empty node list argument of a value parameter is Nothing", floor=1)
+    fn = ctx.repo.require_func("FunctionExtension._unpack_node_lists")
+    params = [a.arg for a in fn.node.args.args]
+    if len(params) < 3:
+        raise AnalysisError("R2.8: _unpack_node_lists(self, func, args) signature changed")
+    funcp = params[1]
+    et = ctx.repo.require_class("ExpressionType")
+
+    def oracle(t: ast.expr, env: dict) -> Optional[bool]:  # type: ignore[type-arg]
+        ic = isinstance_classes(t)
+        if ic is not None:
+            if ic[0] == funcp and "FilterFunction" in ic[1]:
+                return True
+            if "NodeList" in ic[1]:
+                return True
+            return None
+        if isinstance(t, ast.Compare) and len(t.ops) == 1:
+            l, r, op = t.left, t.comparators[0], t.ops[0]
+            if isinstance(l, ast.Call) and callee_name(l) == "len" and isinstance(r, ast.Constant) and isinstance(op, (ast.Eq, ast.NotEq, ast.Gt, ast.GtE, ast.Lt)):
+                n = 0  # the node list is empty
+                return {ast.Eq: n == r.value, ast.NotEq: n != r.value, ast.Gt: n > r.value, ast.GtE: n >= r.value, ast.Lt: n < r.value}[type(op)]
+            if isinstance(op, (ast.Eq, ast.NotEq)):
+                for side in (l, r):
+                    try:
+                        m = ctx.folder.eval_in(side, fn.module, fn.cls)
+                    except NotConst:
+                        continue
+                    if isinstance(m, EnumMember) and m.cls is et:
+                        # the declared parameter type is not NODES (say VALUE)
+                        return (m.name == "VALUE") == isinstance(op, ast.Eq)
+        if isinstance(t, ast.Call) and callee_name(t) == "getattr":
+            return False  # a typed function is not the legacy `with_node_lists` kind
+        if isinstance(t, ast.UnaryOp) and isinstance(t.op, ast.Not) and path_of(t.operand) and not path_of(t.operand).startswith("self"):
+            return None
+        return None
+
+    produced: List[ast.expr] = []
+
+    def on_call(c: ast.Call, args, env):  # type: ignore[no-untyped-def]
+        if callee_name(c) == "append" and len(c.args) == 1:
+            produced.append(c.args[0])
+        return None
+
+    ex = Explorer(ctx.folder, fn, oracle, on_call, enter_loops=True)
+    outs = ex.run({})
+    # values produced by a returned comprehension / list display
+    def leaves(e: ast.expr, env: dict) -> List[ast.expr]:  # type: ignore[type-arg]
+        if isinstance(e, ast.IfExp):
+            d = ex.test(e.test, env)
+            out: List[ast.expr] = []
+            if d is not False:
+                out += leaves(e.body, env)
+            if d is not True:
+                out += leaves(e.orelse, env)
+            return out
+        return [e]
+
+    for (kind, node, _v), env in zip(outs, ex.envs):
+        if kind == "return" and isinstance(node, ast.Return) and isinstance(node.value, (ast.ListComp, ast.GeneratorExp)):
+            produced.extend(leaves(node.value.elt, env))
+        elif kind == "return" and isinstance(node, ast.Return) and isinstance(node.value, ast.Name) and node.value.id == params[2]:
+            produced.append(node.value)  # the arguments are returned untouched
+    if not produced:
+        raise AnalysisError("R2.8: _unpack_node_lists produces no argument values on the typed path")
+    for e in produced:
+        if path_of(e) == "UNDEFINED":
+            rr.ok(fn.loc(e), "empty node list for a value parameter -> UNDEFINED (Nothing)")
+        else:
+            rr.bad(fn, e, f"for a typed function, an empty node list given to a value parameter is passed as `{short(e)}` "
+                   "instead of Nothing: `length(@.missing)` is then 0 (an empty list has length 0) and compares equal to 0",
+                   construct=f"empty node list argument -> {short(e)}")
+    return rr
+
+
+RULES = [r2_1, r2_2, r2_3, r2_4, r2_5, r2_6, r2_7, r2_8]
